@@ -16,7 +16,18 @@ PKT_MODELLED = ("04-packet/keeper/{packet,keeper}.go (SendPacket, RecvPacket, Wr
 PKT_ASSUMES = ["sequence numbers are uint64 (op_wf)", "honest-header premise: a header accepted by a light client carries the root of the counterparty's committed store (C07/C17/C18 + validator honesty)",
                "proof verification = membership of (key,value) in the snapshot recorded at the proof height (C08 is about the byte-level verifiers)"]
 
+APP_MODELLED = ("apps/nft_transfer and apps/mt_transfer: keeper/relay.go (Send*Transfer, OnRecvPacket, OnAcknowledgementPacket, refundPacketToken, determineAwayFromOrigin, "
+                "getAwayNewClassPath, getBackNewClassPath, ClassPathFromHash), types/trace.go (ParseClassTrace, IBCClass), moudle.go callbacks; irismod nft/mt keeper operations as "
+                "ledger operations with their failure conditions and write order (uint64 wrap written out); user transactions of the token modules; on top of the packet-layer model. "
+                "Abstracted: sha256/hex (identity in the executable instance, the harness maps tibc-<HASH> classes back to their full path through the trace store), protobuf packet data "
+                "(an injective field encoding), bech32 validity (prefix test; the harness only generates invalid addresses without the prefix), irismod identifier validation (inputs are valid ids)")
+APP_ASSUMES = ["token/denom ids satisfy the irismod identifier rules (harness precondition)", "module accounts never sign user transactions"]
+
 PROPS = {
+    "C04": {"test": "TestC04", "modelled": APP_MODELLED, "assumes": APP_ASSUMES, "timeout": {"quick": 900, "thorough": 3000}},
+    "C05": {"test": "TestC05", "modelled": APP_MODELLED, "assumes": APP_ASSUMES, "timeout": {"quick": 900, "thorough": 3000}},
+    "C06": {"test": "TestC06", "modelled": APP_MODELLED, "assumes": APP_ASSUMES, "timeout": {"quick": 900, "thorough": 3000}},
+    "C19": {"test": "TestC19", "modelled": APP_MODELLED + "; " + PKT_MODELLED, "assumes": APP_ASSUMES, "timeout": {"quick": 900, "thorough": 3000}},
     "C01": {"test": "TestC01", "modelled": PKT_MODELLED, "assumes": PKT_ASSUMES + ["the commitment hash (sha256) is collision-free (premise of C01_recv_authentic)"]},
     "C03": {"test": "TestC03", "modelled": PKT_MODELLED, "assumes": PKT_ASSUMES + ["the commitment hash (sha256) is collision-free and never empty"]},
     "C11": {"test": "TestC11", "modelled": PKT_MODELLED, "assumes": PKT_ASSUMES},
